@@ -171,6 +171,11 @@ def run(ctx) -> None:
     r14_8(ctx)
     r14_10(ctx)
     r14_11(ctx)
+    r14_12(ctx, end)
+    from .common import keywords_cannot_collide
+    ctx.rule("R14.13", "callbacks get their arguments whatever their names: callback(cb, *args, **kwargs) takes itself and the "
+                       "callback positional-only, as contextlib's stack does (a keyword `callback=` or `self=` belongs to cb)")
+    keywords_cannot_collide(ctx, "R14.13", ctx.unit("contextlib.ExitStack.callback"), "the callback")
     ctx.floor("registration_sites", 3)
     ctx.floor("push_cells", 5)
     ctx.floor("unwind_scenarios", 312)
@@ -354,6 +359,13 @@ class _UnwindOps:
         return None
 
     def awaited(self, v, env):
+        if isinstance(v, tuple) and v[:1] == ("AW",) and self.scenario[v[1]] == "G":
+            # this exit registers a further exit on the stack (push / callback / enter_context all add to the container the
+            # stack's field holds right now, at the registration end) and returns falsy
+            ref = ("CONT", env["@field"])
+            items = self._get(env, ref)
+            self._set(env, ref, items + ("CBX",) if getattr(self, "end", "right") == "right" else ("CBX",) + items)
+            return False
         if isinstance(v, tuple) and v[:1] == ("AW",):
             return self.scenario[v[1]] == "T"
         if isinstance(v, tuple) and len(v) == 2 and v[0] == "@coro":
@@ -518,6 +530,45 @@ def r14_2(ctx, end: str) -> None:
                 if len(table) < 12:
                     table.append({"scenario": label, "trace": str(want_trace), "outcome": str(want_exc)})
     ctx.tables["reference (nested with) sample"] = table
+
+
+def r14_12(ctx, end: str) -> None:
+    """An exit may register a further exit while the stack unwinds (a handler that opens a journal on failure): that exit
+    is registered like any other and runs in the same unwind, next, with the exception then in flight - as the stdlib's
+    stack does, which keeps taking exits from its own container until it is empty."""
+    ctx.rule("R14.12", "an exit registered by an exit during the unwind runs in that unwind (the unwind drains the stack's own "
+                       "container, not a detached copy), and nothing is left behind")
+    u = ctx.unit("contextlib.ExitStack.__aexit__")
+    cfg = cfg_of(u)
+    params = u.param_names()
+    for n, outcomes in ((1, "G"), (2, "FG"), (2, "GF")):
+        for received in (False, True):
+            ctx.count("unwind_registration_cells")
+            scenario = {f"CB{k + 1}": outcomes[k] for k in range(n)}
+            scenario["CBX"] = "F"
+            order = tuple(f"CB{k + 1}" for k in range(n))
+            stack = order if end == "right" else tuple(reversed(order))
+            t0 = triple("E0" if received else None)
+            env = {params[0]: "SELF", params[1]: t0[0], params[2]: t0[1], params[3]: t0[2],
+                   "@conts": {0: stack}, "@field": 0, "@trace": ()}
+            ops = _UnwindOps(scenario)
+            ops.end = end
+            results = Machine(cfg, ops, resolver=make_resolver(ctx, u, ops, skip=("_stitch_context",), coroutines=True)).run(env)
+            want = []
+            for k in range(n, 0, -1):
+                want.append((f"CB{k}", t0))
+                if outcomes[k - 1] == "G":
+                    want.append(("CBX", t0))
+            label = f"stack={n} outcomes={outcomes} (G registers a further exit) received={'E0' if received else 'none'}"
+            if not results:
+                ctx.note(f"R14.12: [{label}] not evaluable")
+                continue
+            for oc in results:
+                got = oc.env["@trace"]
+                left = oc.env["@conts"][oc.env["@field"]]
+                ctx.check(got == tuple(want) and not left, "R14.12", u, _loop_construct(cfg),
+                          f"[{label}] the exit registered during the unwind runs next, once, and the container is empty afterwards",
+                          witness=_diff(tuple(want), got) + f"; left in the stack: {left}")
 
 
 def _diff(want, got) -> str:
